@@ -344,8 +344,8 @@ def units(tier, seed):
     names = [c[0] for c in components(tier)]
     us = []
     for i in range(0, len(names), 4):
-        us.append(Unit(f"components_{i // 4:02d}", "c20:unit_components", {"names": names[i:i + 4], "n_seeds": 12 if T else 4}, 3))
+        us.append(Unit(f"components_{i // 4:02d}", "c20:unit_components", {"names": names[i:i + 4], "n_seeds": 40 if T else 4}, 3))
     st_names = [n for n in names if n.startswith(("dec_", "enc_hamming", "polar", "constraint", "demod_soft_schemeqam_order16_grayTrue_normalizeTrue", "mod_schemepsk_order8_grayTrue"))]
     for i in range(0, len(st_names), 3):
-        us.append(Unit(f"stateful_{i // 3:02d}", "c20:unit_stateful", {"names": st_names[i:i + 3], "examples": 40 if T else 8}, 3))
+        us.append(Unit(f"stateful_{i // 3:02d}", "c20:unit_stateful", {"names": st_names[i:i + 3], "examples": 150 if T else 8}, 3))
     return us
